@@ -165,6 +165,7 @@ def cmdSem (ns name : Str) (input : Val) (vars : Vars) (args : List Val) : CmdEf
   else if ns == s "root" && name == s "rep" then
     (match args with
      | [.int n, sep] =>
+       if n > 10000 then .raises else     -- the command refuses astronomically large counts (a link can produce one)
        (match sep.pyStr, input.pyStr with
         | some sp, some x => .value (.str (joinStr sp (List.replicate n.toNat x)))
         | _, _ => .raises)
